@@ -2,7 +2,7 @@
    source by harness/cmd/go2coq on every run): each equals the model's decoder operation on every byte string, from every
    in-range cursor, in both modes (value, error class, cursor afterwards), and therefore never panics, terminates within 11
    loop iterations and leaves the cursor inside the buffer.  Statements only. *)
-From CsProto Require Import Prelude Varint ZigZag Codec RefWire WireStmts GoSem SrcWire SrcLink SrcDecoderLink SrcDecMethods SrcDecSkip SrcSafe.
+From CsProto Require Import Prelude Varint ZigZag Codec RefWire WireStmts GoSem SrcWire SrcLink SrcDecoderLink SrcDecMethods SrcDecSkip SrcDecFloat SrcSafe.
 Local Open Scope Z_scope.
 
 (* ---- translated method = model operation (abs_res: results through conv, errors as a class, cursor afterwards) *)
@@ -50,6 +50,15 @@ Theorem C03_src_decodeBytes_is_model : forall fuel d, (11 <= fuel)%nat -> st_ok 
   abs_res conv_bytes d (go_Decoder_decodeBytes fuel (st_p d) (st_off d) (st_mode d)) = Some (dec_bytes d).
 Proof. exact src_Decoder_decodeBytes. Qed.
 Print Assumptions C03_src_decodeBytes_is_model.
+(* DecodeFloat32/64: floats are carried as their IEEE 754 bit patterns (math.Float32frombits is the identity on them) *)
+Theorem C03_src_DecodeFloat32_is_model : forall fuel d, st_ok d ->
+  abs_res conv_id d (go_Decoder_DecodeFloat32 fuel (st_p d) (st_off d) (st_mode d)) = Some (dec_scalar d KFloat).
+Proof. exact src_Decoder_DecodeFloat32. Qed.
+Print Assumptions C03_src_DecodeFloat32_is_model.
+Theorem C03_src_DecodeFloat64_is_model : forall fuel d, st_ok d ->
+  abs_res conv_id d (go_Decoder_DecodeFloat64 fuel (st_p d) (st_off d) (st_mode d)) = Some (dec_scalar d KDouble).
+Proof. exact src_Decoder_DecodeFloat64. Qed.
+Print Assumptions C03_src_DecodeFloat64_is_model.
 Theorem C03_src_Skip_is_model : forall fuel d tag wt, (11 <= fuel)%nat -> st_ok d -> 0 <= tag < 2^63 -> - 2^63 <= wt < 2^63 ->
   abs_res conv_bytes d (go_Decoder_Skip fuel (st_p d) (st_off d) (st_mode d) tag wt) = Some (dec_skip d tag wt).
 Proof. exact src_Decoder_Skip. Qed.
@@ -110,6 +119,14 @@ Theorem C03_src_decodeBytes_safe : forall fuel d, (11 <= fuel)%nat -> st_ok d ->
   exists a e off, go_Decoder_decodeBytes fuel (st_p d) (st_off d) (st_mode d) = Val (a, e, off) /\ (Z.to_nat off <= List.length (dbuf d))%nat.
 Proof. exact src_safe_decodeBytes. Qed.
 Print Assumptions C03_src_decodeBytes_safe.
+Theorem C03_src_DecodeFloat32_safe : forall fuel d, st_ok d ->
+  exists a e off, go_Decoder_DecodeFloat32 fuel (st_p d) (st_off d) (st_mode d) = Val (a, e, off) /\ (Z.to_nat off <= List.length (dbuf d))%nat.
+Proof. exact src_safe_DecodeFloat32. Qed.
+Print Assumptions C03_src_DecodeFloat32_safe.
+Theorem C03_src_DecodeFloat64_safe : forall fuel d, st_ok d ->
+  exists a e off, go_Decoder_DecodeFloat64 fuel (st_p d) (st_off d) (st_mode d) = Val (a, e, off) /\ (Z.to_nat off <= List.length (dbuf d))%nat.
+Proof. exact src_safe_DecodeFloat64. Qed.
+Print Assumptions C03_src_DecodeFloat64_safe.
 Theorem C03_src_Skip_safe : forall fuel d, (11 <= fuel)%nat -> st_ok d -> forall tag wt, 0 <= tag < 2^63 -> - 2^63 <= wt < 2^63 ->
   exists a e off, go_Decoder_Skip fuel (st_p d) (st_off d) (st_mode d) tag wt = Val (a, e, off) /\ (Z.to_nat off <= List.length (dbuf d))%nat.
 Proof. exact src_safe_Skip. Qed.
